@@ -120,31 +120,31 @@ func checkShape3(r *ev.Run, s ref.Shape3, n int) {
 		want := s.SDF(p)
 		got := obj.SDF(p)
 		vals[i] = got
-		if math.Abs(got-want) > tol {
+		if !(math.Abs(got-want) <= tol) {
 			viol("SDF", "distance", fmt.Sprintf("SDF=%.12g, reference distance %.12g", got, want), p)
 			continue
 		}
-		if math.Abs(want) > 10*tol && (got > 0) != obj.Contains(p) {
+		if !(math.Abs(want) <= 10*tol) && (got > 0) != obj.Contains(p) {
 			viol("SDF", "sign", fmt.Sprintf("SDF=%g but Contains=%v", got, obj.Contains(p)), p)
 		}
 		q, d := obj.PointSDF(p)
-		if math.Abs(d-got) > tol {
+		if !(math.Abs(d-got) <= tol) {
 			viol("PointSDF", "distance", fmt.Sprintf("PointSDF distance %g differs from SDF %g", d, got), p)
 		}
-		if math.Abs(s.SDF(q)) > 1e-7*(s.Extent+1) {
+		if !(math.Abs(s.SDF(q)) <= 1e-7*(s.Extent+1)) {
 			viol("PointSDF", "point-off-surface", fmt.Sprintf("reported nearest point %v has reference distance %g from the surface", q, s.SDF(q)), p)
-		} else if math.Abs(q.Dist(p)-math.Abs(want)) > 1e-7*(s.Extent+1) {
+		} else if !(math.Abs(q.Dist(p)-math.Abs(want)) <= 1e-7*(s.Extent+1)) {
 			viol("PointSDF", "point-not-nearest", fmt.Sprintf("reported nearest point %v is at distance %g, the true distance is %g", q, q.Dist(p), math.Abs(want)), p)
 		}
 		nrm, d2 := obj.NormalSDF(p)
-		if math.Abs(d2-got) > tol {
+		if !(math.Abs(d2-got) <= tol) {
 			viol("NormalSDF", "distance", fmt.Sprintf("NormalSDF distance %g differs from SDF %g", d2, got), p)
 		}
-		if math.Abs(nrm.Norm()-1) > 1e-6 {
+		if !(math.Abs(nrm.Norm()-1) <= 1e-6) {
 			viol("NormalSDF", "not-unit", fmt.Sprintf("normal %v has length %g", nrm, nrm.Norm()), p)
 		} else if wn, _, smooth := ref.SmoothNormal(s.SDF, p, s.Extent, s.Feature); smooth {
 			r.NontrivialAdd(1)
-			if nrm.Dist(wn) > 2e-3 {
+			if !(nrm.Dist(wn) <= 2e-3) {
 				viol("NormalSDF", "direction", fmt.Sprintf("normal %v, outward normal of the reference surface (= -grad sdf) is %v", nrm, wn), p)
 			}
 		} else {
@@ -153,7 +153,7 @@ func checkShape3(r *ev.Run, s ref.Shape3, n int) {
 	}
 	// 1-Lipschitz along the lattice (consecutive points differ in one index)
 	for i := 1; i < n*n*n; i++ {
-		if math.Abs(vals[i]-vals[i-1]) > pts[i].Dist(pts[i-1])*(1+1e-9)+tol {
+		if !(math.Abs(vals[i]-vals[i-1]) <= pts[i].Dist(pts[i-1])*(1+1e-9)+tol) {
 			viol("SDF", "lipschitz", fmt.Sprintf("changes by %g over a distance of %g", math.Abs(vals[i]-vals[i-1]), pts[i].Dist(pts[i-1])), pts[i])
 			break
 		}
@@ -218,7 +218,7 @@ func checkMeshSDF(r *ev.Run, nm cat.Named3, n int) {
 				inside := math.Abs(math.Mod(math.Round(w), 2)) == 1
 				c := sdfCase{"MeshToSDF(" + nm.Name + ")", []float64{p.X, p.Y, p.Z}, "SDF"}
 				got := sdf.SDF(p)
-				if math.Abs(math.Abs(got)-best) > tol {
+				if !(math.Abs(math.Abs(got)-best) <= tol) {
 					r.Violation("MeshToSDF/distance", fmt.Sprintf("%s at %v: |SDF|=%.12g, brute-force minimum over triangles %.12g", nm.Name, p, math.Abs(got), best), c)
 					continue
 				}
@@ -229,11 +229,11 @@ func checkMeshSDF(r *ev.Run, nm cat.Named3, n int) {
 				if d != got {
 					r.Violation("MeshToSDF/FaceSDF-distance", fmt.Sprintf("FaceSDF distance %g != SDF %g", d, got), c)
 				}
-				if fd, _ := triDist(q, *face); fd > 1e-9*(ext+1) || math.Abs(q.Dist(p)-best) > tol {
+				if fd, _ := triDist(q, *face); fd > 1e-9*(ext+1) || !(math.Abs(q.Dist(p)-best) <= tol) {
 					r.Violation("MeshToSDF/FaceSDF-point", fmt.Sprintf("%s at %v: nearest point %v is %g from the reported face and %g from the query (true distance %g)", nm.Name, p, q, fd, q.Dist(p), best), c)
 				}
 				nrm, _ := sdf.NormalSDF(p)
-				if fn := face.Normal(); math.Abs(nrm.Norm()-1) > 1e-6 || nrm.Dist(fn) > 1e-9 {
+				if fn := face.Normal(); !(math.Abs(nrm.Norm()-1) <= 1e-6) || !(nrm.Dist(fn) <= 1e-9) {
 					r.Violation("MeshToSDF/NormalSDF", fmt.Sprintf("normal %v is not the unit normal %v of the nearest face", nrm, fn), c)
 				}
 				q2, d2 := sdf.PointSDF(p)
@@ -292,11 +292,11 @@ func checkSingleTriangles(r *ev.Run, n int) {
 			want, _ := triDist(p, t)
 			c := sdfCase{name, []float64{p.X, p.Y, p.Z}, "SDF"}
 			q, got := sdf.PointSDF(p)
-			if math.Abs(math.Abs(got)-want) > 1e-9 {
+			if !(math.Abs(math.Abs(got)-want) <= 1e-9) {
 				r.Violation("MeshToSDF/single-triangle-distance", fmt.Sprintf("%s at %v: |SDF|=%.12g, distance to the triangle %.12g", name, p, math.Abs(got), want), c)
 				break
 			}
-			if fd, _ := triDist(q, t); fd > 1e-9 || math.Abs(q.Dist(p)-want) > 1e-9 {
+			if fd, _ := triDist(q, t); fd > 1e-9 || !(math.Abs(q.Dist(p)-want) <= 1e-9) {
 				r.Violation("MeshToSDF/single-triangle-point", fmt.Sprintf("%s at %v: nearest point %v is %g off the triangle and %g from the query (true distance %g)", name, p, q, fd, q.Dist(p), want), c)
 				break
 			}
@@ -331,19 +331,19 @@ func checkShape2(r *ev.Run, s ref.Shape2, n int) {
 			r.Eval(1)
 			c := sdfCase{s.Name, []float64{p.X, p.Y}, "SDF"}
 			want, got := s.SDF(p), obj.SDF(p)
-			if math.Abs(got-want) > tol {
+			if !(math.Abs(got-want) <= tol) {
 				r.Violation(fam+"/SDF/distance", fmt.Sprintf("%s at %v: SDF=%.12g, reference %.12g", s.Name, p, got, want), c)
 				continue
 			}
-			if math.Abs(want) > 10*tol && (got > 0) != obj.Contains(p) {
+			if !(math.Abs(want) <= 10*tol) && (got > 0) != obj.Contains(p) {
 				r.Violation(fam+"/SDF/sign", fmt.Sprintf("%s at %v: SDF=%g but Contains=%v", s.Name, p, got, obj.Contains(p)), c)
 			}
 			q, d := obj.PointSDF(p)
-			if math.Abs(d-got) > tol || math.Abs(s.SDF(q)) > 1e-7*(s.Extent+1) || math.Abs(q.Dist(p)-math.Abs(want)) > 1e-7*(s.Extent+1) {
+			if !(math.Abs(d-got) <= tol) || !(math.Abs(s.SDF(q)) <= 1e-7*(s.Extent+1)) || !(math.Abs(q.Dist(p)-math.Abs(want)) <= 1e-7*(s.Extent+1)) {
 				r.Violation(fam+"/PointSDF", fmt.Sprintf("%s at %v: nearest point %v (surface distance %g), distance %g, true %g", s.Name, p, q, s.SDF(q), q.Dist(p), math.Abs(want)), c)
 			}
 			nrm, d2 := obj.NormalSDF(p)
-			if math.Abs(d2-got) > tol || math.Abs(nrm.Norm()-1) > 1e-6 {
+			if !(math.Abs(d2-got) <= tol) || !(math.Abs(nrm.Norm()-1) <= 1e-6) {
 				r.Violation(fam+"/NormalSDF/unit", fmt.Sprintf("%s at %v: normal %v distance %g", s.Name, p, nrm, d2), c)
 			} else {
 				// smooth points: gradient by central differences on the reference
@@ -356,19 +356,19 @@ func checkShape2(r *ev.Run, s ref.Shape2, n int) {
 					ok := true
 					for _, qq := range []model2d.Coord{near.Add(model2d.XY(-wn.Y, wn.X).Scale(h2)), near.Sub(model2d.XY(-wn.Y, wn.X).Scale(h2))} {
 						g2 := model2d.XY((s.SDF(qq.Add(model2d.X(h)))-s.SDF(qq.Sub(model2d.X(h))))/(2*h), (s.SDF(qq.Add(model2d.Y(h)))-s.SDF(qq.Sub(model2d.Y(h))))/(2*h))
-						if math.Abs(g2.Norm()-1) > 1e-2 || g2.Scale(-1/g2.Norm()).Dist(wn) > 3*h2/s.Feature+1e-3 {
+						if !(math.Abs(g2.Norm()-1) <= 1e-2) || !(g2.Scale(-1/g2.Norm()).Dist(wn) <= 3*h2/s.Feature+1e-3) {
 							ok = false
 						}
 					}
 					if ok {
 						r.NontrivialAdd(1)
-						if nrm.Dist(wn) > 2e-3 {
+						if !(nrm.Dist(wn) <= 2e-3) {
 							r.Violation(fam+"/NormalSDF/direction", fmt.Sprintf("%s at %v: normal %v, reference outward normal %v", s.Name, p, nrm, wn), c)
 						}
 					}
 				}
 			}
-			if j > 0 && math.Abs(got-prevV) > p.Dist(prev)*(1+1e-9)+tol {
+			if j > 0 && !(math.Abs(got-prevV) <= p.Dist(prev)*(1+1e-9)+tol) {
 				r.Violation(fam+"/SDF/lipschitz", fmt.Sprintf("%s: changes by %g over %g", s.Name, math.Abs(got-prevV), p.Dist(prev)), c)
 			}
 			prev, prevV = p, got
@@ -401,13 +401,13 @@ func checkMeshSDF2(r *ev.Run, nm cat.Named2, n int) {
 			inside := math.Abs(math.Mod(math.Round(w), 2)) == 1
 			got := sdf.SDF(p)
 			c := sdfCase{"2d.MeshToSDF(" + nm.Name + ")", []float64{p.X, p.Y}, "SDF"}
-			if math.Abs(math.Abs(got)-best) > 1e-9*(ext+1) {
+			if !(math.Abs(math.Abs(got)-best) <= 1e-9*(ext+1)) {
 				r.Violation("2d.MeshToSDF/distance", fmt.Sprintf("%s at %v: |SDF|=%.12g, brute force %.12g", nm.Name, p, math.Abs(got), best), c)
 			} else if best > 1e-6 && (got > 0) != inside {
 				r.Violation("2d.MeshToSDF/sign", fmt.Sprintf("%s at %v: SDF=%g, winding number %g", nm.Name, p, got, w), c)
 			}
 			q, d := sdf.PointSDF(p)
-			if d != got || math.Abs(q.Dist(p)-best) > 1e-9*(ext+1) {
+			if d != got || !(math.Abs(q.Dist(p)-best) <= 1e-9*(ext+1)) {
 				r.Violation("2d.MeshToSDF/PointSDF", fmt.Sprintf("%s at %v: point %v at %g, true %g", nm.Name, p, q, q.Dist(p), best), c)
 			}
 			r.NontrivialAdd(1)
@@ -441,11 +441,11 @@ func checkProfile(r *ev.Run, n int) {
 					r.NontrivialAdd(1)
 					w := want(p)
 					c := sdfCase{"ProfileSDF(" + s2.Name + ")", []float64{p.X, p.Y, p.Z}, "SDF"}
-					if got := ps.SDF(p); math.Abs(got-w) > 1e-9*(s2.Extent+s2.Center.Norm()+2) {
+					if got := ps.SDF(p); !(math.Abs(got-w) <= 1e-9*(s2.Extent+s2.Center.Norm()+2)) {
 						r.Violation("ProfileSDF/distance", fmt.Sprintf("%s at %v: SDF=%.12g, reference %.12g", s2.Name, p, got, w), c)
 					}
 					q, d := pps.PointSDF(p)
-					if math.Abs(d-w) > 1e-9*(s2.Extent+s2.Center.Norm()+2) || math.Abs(want(q)) > 1e-7*(s2.Extent+2) || math.Abs(q.Dist(p)-math.Abs(w)) > 1e-7*(s2.Extent+2) {
+					if !(math.Abs(d-w) <= 1e-9*(s2.Extent+s2.Center.Norm()+2)) || !(math.Abs(want(q)) <= 1e-7*(s2.Extent+2)) || !(math.Abs(q.Dist(p)-math.Abs(w)) <= 1e-7*(s2.Extent+2)) {
 						r.Violation("ProfilePointSDF/point", fmt.Sprintf("%s at %v: point %v (surface distance %g), distance %g, reference %g", s2.Name, p, q, want(q), d, w), c)
 					}
 				}
@@ -481,16 +481,16 @@ func checkFeature(r *ev.Run, c featCase) {
 		obj := &model2d.Capsule{P1: p1, P2: p2, Radius: c.R}
 		want := c.R - ref.SegDist2(q.X, q.Y, p1.X, p1.Y, p2.X, p2.Y)
 		tol := 1e-9 * (1 + p1.Norm() + p2.Norm())
-		if got := obj.SDF(q); math.Abs(got-want) > tol {
+		if got := obj.SDF(q); !(math.Abs(got-want) <= tol) {
 			viol("SDF", fmt.Sprintf("SDF=%.12g, reference %.12g", got, want))
 		}
 		pt, d := obj.PointSDF(q)
 		onSurf := c.R - ref.SegDist2(pt.X, pt.Y, p1.X, p1.Y, p2.X, p2.Y)
-		if math.Abs(d-want) > tol || math.Abs(onSurf) > 1e-7 || math.Abs(pt.Dist(q)-math.Abs(want)) > 1e-7 {
+		if !(math.Abs(d-want) <= tol) || !(math.Abs(onSurf) <= 1e-7) || !(math.Abs(pt.Dist(q)-math.Abs(want)) <= 1e-7) {
 			viol("PointSDF", fmt.Sprintf("nearest point %v is %g from the surface and %g from the query; the surface is %g away", pt, onSurf, pt.Dist(q), math.Abs(want)))
 		}
 		n, d2 := obj.NormalSDF(q)
-		if math.Abs(d2-want) > tol || !(math.Abs(n.Norm()-1) < 1e-6) {
+		if !(math.Abs(d2-want) <= tol) || !(math.Abs(n.Norm()-1) < 1e-6) {
 			viol("NormalSDF", fmt.Sprintf("normal %v (length %g), distance %g, reference %g", n, n.Norm(), d2, want))
 		}
 		r.NontrivialAdd(1)
